@@ -154,6 +154,24 @@ theorem len_ne_one {α} (xs : List α) : (Py.len xs != (1 : Int)) = (xs.length !
   rw [Bool.eq_iff_iff]; simp only [bne_iff_ne, ne_eq]
   omega
 
+/-- `s[-1]` -/
+theorem index_neg_one (s : Str) :
+    Py.index s (-1 : Int) = match s.getLast? with | some c => .ok [c] | none => .error .IndexError := by
+  unfold Py.index
+  cases s with
+  | nil => rfl
+  | cons a t =>
+    have hk : ¬ (((a :: t).length : Int) + -1 < 0) := by simp only [List.length_cons]; omega
+    have hn : (((a :: t).length : Int) + -1).toNat = (a :: t).length - 1 := by simp only [List.length_cons]; omega
+    simp only [show ((-1 : Int) < 0) from by decide, ↓reduceIte, hk, hn, ← List.getLast?_eq_getElem?]
+    cases (a :: t).getLast? <;> rfl
+
+/-- `s[:-1]` -/
+theorem slice_dropLast_one (s : Str) : Py.slice s none (some (-(1 : Int))) = s.dropLast := by
+  have := slice_dropLast s 1 (by decide)
+  rw [List.dropLast_eq_take]
+  simpa [dropLastN] using this
+
 /-! ## match objects -/
 
 theorem take_beq_self (s : Str) (n : Nat) : (s.take n == s) = decide (s.length ≤ n) := by
